@@ -582,7 +582,9 @@ func (s *session) handleLogon(msg *Message) error {
 				if !s.DisableMessagePersist {
 					if targetWantsNextSeqNumToBe < nextSenderMsgNumAtLogonReceived {
 						// The counterparty has not seen everything we sent: send it again.
-						if resendErr := (inSession{}).resendMessages(s, targetWantsNextSeqNumToBe, nextSenderMsgNumAtLogonReceived-1, *msg); resendErr != nil {
+						// (through our Logon reply, which the counterparty has to skip as well: it arrives
+						// ahead of these messages and is not consumed)
+						if resendErr := (inSession{}).resendMessages(s, targetWantsNextSeqNumToBe, s.store.NextSenderMsgSeqNum()-1, *msg); resendErr != nil {
 							return resendErr
 						}
 					}
